@@ -48,7 +48,7 @@ def random_heap(rng: random.Random, zi: ZooInfo, nobj: int, classes: list[str], 
                 elif f["kind"] == "opt":
                     t = pick(zi.allowed_classes(f)) if rng.random() < 0.7 else None
                     rec["k"][n] = t or "none"
-                elif f["kind"] == "tuple":
+                elif f["kind"] in ("tuple", "list"):
                     ln = rng.choice([0, 1, 2, 3, max_tuple])
                     ts = []
                     for _ in range(ln):
@@ -74,4 +74,25 @@ def random_heap(rng: random.Random, zi: ZooInfo, nobj: int, classes: list[str], 
                         free.remove(t)
                 free.append(s)
                 break
+    return h
+
+
+def wide_heap(rng: random.Random, leaf: str, many: str, field: str, unary: str | None = None, width: int = 13) -> dict:
+    """a tree with a tuple / list of `width` children (indices beyond 9) and a nested one below element 11"""
+    h = {}
+    n = 0
+
+    def new(rec):
+        nonlocal n
+        n += 1
+        h[f"s{n}"] = rec
+        return f"s{n}"
+    inner = [new({"c": leaf, "p": {"a": rng.randrange(3), "b": 0}, "k": {}, "o": 0}) for _ in range(rng.choice([2, 11, 12]))]
+    mid = new({"c": many, "p": {}, "k": {field: inner, **({"head": "none"} if field == "items" else {})}, "o": 0})
+    outer = [new({"c": leaf, "p": {"a": rng.randrange(3), "b": 0}, "k": {}, "o": 0}) for _ in range(width - 1)]
+    pos = rng.choice([1, 10, 11, width - 1])
+    outer.insert(pos, mid)
+    top = new({"c": many, "p": {}, "k": {field: outer, **({"head": "none"} if field == "items" else {})}, "o": 0})
+    if unary and rng.random() < 0.5:
+        top = new({"c": unary, "p": {}, "k": {"child": top}, "o": 0})
     return h
